@@ -51,7 +51,7 @@ PARTIAL = [
     "(loop stops at term <= 1e-8, continued-fraction branch): checked on x grids against an independent evaluation (tolerance 1e-6), not proved; "
     "proved: the series loop computes the series prefix and terminates, the branch value is prefix * exp(p log x - x - g)/p, the guards",
     "continued-fraction branch (x > 1, x >= p): modelled with its goto structure and replayed, no theorem about its value or termination "
-    "(it does NOT terminate for x >= ~1e150: known finding)",
+    "(it did not terminate for x >= ~1e103 before fix 509903c)",
     "gonum distuv.Gamma.Quantile and math.Gamma/Lgamma are external: passed into the model; their accuracy is measured per case (ext-quantile, ext-lgamma)",
     "weights / Dirichlet theorems are over the reals: float rounding, overflow, underflow (pow(p, 1/alpha) -> 0 for tiny alpha: known finding) are not modelled",
     "rejection loops carry a fuel bound in the model (10 000 rounds); theorems hold for every fuel and say nothing when the fuel runs out "
